@@ -794,6 +794,62 @@ def rule_merge_far_end(chk, prog):
             (r.bad if bad else r.ok)(inst, fn.where(), bad or "")
 
 
+def rule_execute_coverage(chk, prog):
+    from ..rules.guards import path_condition, atoms, show
+    r = chk.rule("IMPROVER-COVERS-HYPEREDGE", "HyperedgeImprover::execute: (a) a connector is left out of the temporary hyperedge trees only when neither "
+                 "of its ends is attached to a junction -- the `continue` in the loop over all connectors depends on nothing else (not on the "
+                 "routing type: the junction is moved for all of its connectors or the left-out one keeps a route to the old position); "
+                 "(b) with major changes allowed, updateConnEnds runs for every tree root whatever the improvement did (merging junctions "
+                 "re-attaches connectors just as splitting does); (c) writeEdgesToConns runs for every root in both passes", floor=3)
+    fn = prog.fn("Avoid::HyperedgeImprover::execute")
+    g = CFG(fn)
+    loops = [n for n in fn.nodes() if n.get("k") == "WhileStmt" and "connRefs.end()" in norm(n.get("cond"))]
+    r.count()
+    if len(loops) != 1:
+        raise AnalysisBroken("execute: the loop over all connectors was not found")
+    bad = None
+    conts = [n for n in walk(loops[0]["body"]) if n.get("k") == "ContinueStmt"]
+    if not conts:
+        raise AnalysisBroken("execute: the connector loop has no skip")
+    for c in conts:
+        ats = atoms(path_condition(fn, c, inline=False))
+        extra = [a for a in ats if a not in ("jFront", "jBack") and "connRefs.end()" not in a]
+        if extra:
+            bad = bad or "a connector is left out of the hyperedge trees under %s" % extra[:2]
+    (r.bad if bad else r.ok)("connectors taken into the trees", fn.loc(conts[0]), bad or "")
+    uc = [c for c in calls(fn) if c.get("cname") == "Avoid::HyperedgeTreeNode::updateConnEnds"]
+    r.count()
+    bad = None
+    if len(uc) != 1:
+        raise AnalysisBroken("execute: updateConnEnds call not found")
+    ats = [a for a in atoms(path_condition(fn, uc[0], inline=False)) if ".end()" not in a]
+    if ats != ["m_can_make_major_changes"]:
+        bad = "connector ends are re-attached only under %s (expected: whenever major changes are allowed)" % sorted(ats)
+    else:
+        lp = [a for a in fn.ancestors(uc[0]) if a.get("k") == "ForStmt"]
+        if not lp or "m_hyperedge_tree_roots" not in norm(lp[0].get("init")) or g.iteration_can_skip(lp[0], [uc[0]["id"]]) is not None:
+            bad = "updateConnEnds does not run for every hyperedge tree root"
+    (r.bad if bad else r.ok)("connector ends re-attached", fn.loc(uc[0]), bad or "")
+    wb = [c for c in calls(fn) if c.get("cname") == "Avoid::HyperedgeImprover::writeHyperedgeSegmentsBackToConnPaths"]
+    fw = prog.fn("Avoid::HyperedgeImprover::writeHyperedgeSegmentsBackToConnPaths")
+    gw = CFG(fw)
+    we = [c for c in calls(fw) if c.get("cname") == "Avoid::HyperedgeTreeNode::writeEdgesToConns"]
+    r.count()
+    bad = None
+    if not wb or g.exit_reachable_avoiding([c["id"] for c in wb]) is not None:
+        bad = "execute can finish without writing the routes back (writeHyperedgeSegmentsBackToConnPaths)"
+    elif not we:
+        bad = "routes are never written back"
+    else:
+        lps = [a for a in fw.ancestors(we[0]) if a.get("k") == "ForStmt"]
+        ats = [a for a in atoms(path_condition(fw, we[0], inline=False)) if ".end()" not in a and "pass" not in a]
+        if ats:
+            bad = "routes are written back only under %s" % ats
+        elif len(lps) < 2 or gw.iteration_can_skip(lps[0], [we[0]["id"]]) is not None or "(pass < 2)" not in norm(lps[-1].get("cond")):
+            bad = "writeEdgesToConns can be skipped for a root or a pass"
+    (r.bad if bad else r.ok)("routes written back", fn.loc(we[0]) if we else fn.where(), bad or "")
+
+
 def run(chk):
     prog = chk.load()
     chk.guard(rule_writeback, chk, prog, chk.tier)
@@ -801,5 +857,6 @@ def run(chk):
     chk.guard(rule_zero_length, chk, prog)
     chk.guard(rule_shift_terminal, chk, prog)
     chk.guard(rule_merge_far_end, chk, prog)
+    chk.guard(rule_execute_coverage, chk, prog)
     chk.guard(rule_reroute_lists, chk, prog)
     chk.guard(rule_object_lists, chk, prog)
